@@ -750,7 +750,7 @@ def dispatch (P : Prims) (d : Desc) : St → CM St := fun s =>
         match P.factorValue s1 >>= factorCount with
         | .error e => .error e
         | .ok n => iterN n (walkList P ms) s1
-    | _ => .error .other
+    | _ => .error .unknownDescr
   | .op id => operatorDescriptor P id s
   | .seq _ ms => walkList P ms s
   | .undefElem _ => .error .unknownDescr
@@ -843,7 +843,7 @@ theorem good_dispatch {Sh : Shape} {P : Prims} (hP : P.Good Sh) : (d : Desc) →
         (fun s => by simp only [dispatch, kl, klV]; match_eq)
         (Good.kl (good_elementDescriptor hP _ _)
           (Good.klV (goodV_factor hP) (fun n => Good.iterN (good_walkList hP ms) n)))
-    | _ => exact Good.error .other
+    | _ => exact Good.error .unknownDescr
   | .op id => good_operatorDescriptor hP id
   | .seq _ ms => good_walkList hP ms
   | .undefElem _ => Good.error .unknownDescr
